@@ -788,13 +788,32 @@ func buildShape(sh shape, rnd *rand.Rand) *world {
 		ch   *characteristic.Characteristic
 		acc  *accessory.Accessory
 	}
+	// "explicit-ids" shapes: the application gives most accessories ids of its own (a bridge keeps the ids of the devices
+	// behind it over restarts), in no particular order and with gaps; every fifth one is left to the container
+	var explicitIDs []uint64
+	if strings.Contains(sh.Name, "explicit-ids") {
+		perm := rnd.Perm(sh.NAcc)
+		explicitIDs = make([]uint64, sh.NAcc)
+		for i := range explicitIDs {
+			switch {
+			case i == 0 || i%5 == 4: // (the container counts its own ids from 1: an explicit 1 would collide with them)
+				explicitIDs[i] = 0
+			default:
+				explicitIDs[i] = uint64(1000 + 7*perm[i])
+			}
+		}
+	}
 	var pend []pending
 	for i := 0; i < sh.NAcc; i++ {
 		typ := accessory.TypeOther
 		if i == 0 && sh.NAcc > 1 {
 			typ = accessory.TypeBridge
 		}
-		acc := accessory.New(accessory.Info{Name: fmt.Sprintf("c09 %s %d", sh.Name, i), SerialNumber: fmt.Sprintf("SN-%d", i), Manufacturer: "verif", Model: "c09", FirmwareRevision: "1.0"}, typ)
+		info := accessory.Info{Name: fmt.Sprintf("c09 %s %d", sh.Name, i), SerialNumber: fmt.Sprintf("SN-%d", i), Manufacturer: "verif", Model: "c09", FirmwareRevision: "1.0"}
+		if explicitIDs != nil {
+			info.ID = explicitIDs[i] // 0: assigned by the container
+		}
+		acc := accessory.New(info, typ)
 		for _, ch := range acc.Info.Service.Characteristics {
 			name := typeToCtor[ch.Type]
 			if name == "" {
@@ -1987,9 +2006,10 @@ func main() {
 			{"bridge150x12", 150, 12, 120}, {"bridge150x20", 150, 20, 80}, {"bridge150x4", 150, 4, 160},
 			{"single", 1, 0, 800}, {"pair", 2, 0, 800}, {"bridge3", 3, 0, 600}, {"bridge5", 5, 0, 600}, {"bridge10", 10, 0, 500},
 			{"bridge25", 25, 8, 400}, {"bridge50", 50, 6, 250}, {"bridge100", 100, 4, 200},
+			{"bridge12-explicit-ids", 12, 0, 300}, {"bridge40-explicit-ids", 40, 6, 150}, {"pair-explicit-ids", 2, 0, 200},
 		}
 	} else {
-		shapes = []shape{{"bridge150x12", 150, 12, 8}, {"single", 1, 0, 40}, {"pair", 2, 0, 30}, {"bridge5", 5, 0, 30}, {"bridge25", 25, 8, 15}}
+		shapes = []shape{{"bridge150x12", 150, 12, 8}, {"single", 1, 0, 40}, {"pair", 2, 0, 30}, {"bridge5", 5, 0, 30}, {"bridge25", 25, 8, 15}, {"bridge12-explicit-ids", 12, 0, 20}}
 	}
 	var wg sync.WaitGroup
 	chq := make(chan shape)
